@@ -162,6 +162,10 @@ func ruleC03Partition(c *Ctx) {
 			if e.Kind == "call" && e.Callee == "builtin:append" && len(e.Args) == 2 && e.Args[1].Op == "varargs" && len(e.Args[1].Args) == 1 && isRow(e.Args[1].Args[0]) {
 				appends++
 			}
+			// a new group started as a one-element literal []any{row}
+			if e.Kind == "store" && len(e.Args) == 2 && strings.Contains(e.Args[0].String(), "slicelit") && isRow(e.Args[1]) {
+				appends++
+			}
 		}
 		switch p.Exit {
 		case "stop":
@@ -206,12 +210,16 @@ func ruleC03Partition(c *Ctx) {
 	c.Check(okK, "c03.key-equality", key+"/key-of-row", c.P.Pos(f.Pos()), "the row's key map holds reader(row, k) for every grouping key k", whyK)
 	// membership comparison: lookup(*group, k) != v with (k, v) ranging over the row's key map
 	okM, whyM := false, "no comparison of the candidate group's value with the row's value for the same key, over all keys of the row's key map"
-	allInstrs(f, func(_ *ssa.BasicBlock, in ssa.Instruction) {
+	memberFn, memberTB := f, tbd // where the membership comparison lives: the grouping function or a helper extracted from it
+	deepInstrs(f, func(g *ssa.Function, gtb *TB, _ *ssa.BasicBlock, in ssa.Instruction) {
 		b, ok := in.(*ssa.BinOp)
 		if !ok || (b.Op != token.NEQ && b.Op != token.EQL) {
 			return
 		}
-		x, y := tbd.Of(b.X), tbd.Of(b.Y)
+		if g == f {
+			gtb = tbd
+		}
+		x, y := gtb.Of(b.X), gtb.Of(b.Y)
 		for _, pair := range [][2]*Term{{x, y}, {y, x}} {
 			l, v := pair[0], pair[1]
 			if l.Op != "lookup" {
@@ -222,6 +230,7 @@ func ruleC03Partition(c *Ctx) {
 				// the ranged map is the row's key map
 				if keyMapUpd != nil && strings.Contains(v.Args[0].String(), tbd.Of(keyMapUpd.Map).String()) {
 					okM, whyM = true, ""
+					memberFn, memberTB = g, gtb
 				}
 			}
 		}
@@ -229,9 +238,9 @@ func ruleC03Partition(c *Ctx) {
 	// every key is compared: in the membership loop an equal key continues with the next key; only
 	// exhaustion of the keys leaves the loop with the match flag still set
 	if okM && keyMapUpd != nil {
-		for _, nx := range mapRangeNexts(f) {
+		for _, nx := range mapRangeNexts(memberFn) {
 			rg := nx.Iter.(*ssa.Range)
-			if !strings.Contains(tbd.Of(rg.X).String(), tbd.Of(keyMapUpd.Map).String()) {
+			if !strings.Contains(memberTB.Of(rg.X).String(), tbd.Of(keyMapUpd.Map).String()) {
 				continue
 			}
 			h := nx.Block()
@@ -241,7 +250,7 @@ func ruleC03Partition(c *Ctx) {
 			}
 			_ = iff
 			body := h.Succs[0]
-			mp, err := WalkFrom(f, body, h, WalkCfg{StopAt: func(b *ssa.BasicBlock) bool { return b == h }, MaxVisits: 1})
+			mp, err := WalkFrom(memberFn, body, h, WalkCfg{StopAt: func(b *ssa.BasicBlock) bool { return b == h }, MaxVisits: 1})
 			if err != nil {
 				okM, whyM = false, err.Error()
 				break
@@ -572,6 +581,21 @@ func ruleC03AggSiblings(c *Ctx) {
 			why = append(why, "the first call is not the arity guard Guard(1, args) with its error returned")
 		}
 		loops := rangeLoops(f)
+		outer := f // the registered function
+		var helperCall *ssa.Call
+		if len(loops) == 0 {
+			// the member loop was extracted into a helper the rule tables do not know: analyse the loop there and
+			// relate the helper's results to the registered function's return afterwards
+			allInstrs(f, func(_ *ssa.BasicBlock, in ssa.Instruction) {
+				if call, ok := in.(*ssa.Call); ok && isUnknownHelper(call.Common().StaticCallee()) && len(rangeLoops(call.Common().StaticCallee())) == 1 && helperCall == nil {
+					helperCall = call
+				}
+			})
+			if helperCall != nil {
+				f = helperCall.Common().StaticCallee()
+				loops = rangeLoops(f)
+			}
+		}
 		if len(loops) != 1 {
 			c.Unknown("c03.agg-siblings", key, c.P.Pos(f.Pos()), fmt.Sprintf("expected one loop over the members, found %d", len(loops)))
 			continue
@@ -700,7 +724,55 @@ func ruleC03AggSiblings(c *Ctx) {
 			why = append(why, "no path accumulates a member")
 		}
 		// after the loop
+		isAcc := func(t *Term) bool { return t != nil && t.V == ssa.Value(acc) }
+		isFlag := func(t *Term) bool { return t != nil && t.V == ssa.Value(flag) }
 		post, err := WalkFrom(f, lp.exit, lp.header, WalkCfg{MaxVisits: 1})
+		if err == nil && helperCall != nil {
+			// the helper hands (accumulator, flag) back: find their result positions, then judge the registered function
+			ia, ifl := -1, -1
+			for _, p := range post {
+				if p.Exit != "return" {
+					continue
+				}
+				for i, r := range p.Ret {
+					if isAcc(r.T) {
+						ia = i
+					}
+					if isFlag(r.T) {
+						ifl = i
+					}
+				}
+			}
+			if ia < 0 || ifl < 0 {
+				why = append(why, "the helper that holds the member loop does not return the accumulator and the all-NULL flag")
+			}
+			resultOf := func(t *Term, idx int) bool {
+				return t != nil && t.Op == "ext" && t.Name == fmt.Sprint(idx) && len(t.Args) == 1 && t.Args[0].V == ssa.Value(helperCall)
+			}
+			isAcc = func(t *Term) bool { return resultOf(t, ia) }
+			isFlag = func(t *Term) bool { return resultOf(t, ifl) }
+			post, err = WalkFunc(outer, WalkCfg{MaxVisits: 1, NoInline: true})
+			var keep []*Path
+			for _, p := range post {
+				called := false
+				for _, e := range p.Effects {
+					if e.Instr == ssa.Instruction(helperCall) {
+						called = true
+					}
+				}
+				// only the paths on which the helper ran and succeeded
+				failed := false
+				for k, v := range p.Asg {
+					if x, isN := isNilTest(p.KeyTerm[k]); isN && isErrorType(x) && !isTrueC(v) {
+						failed = true
+					}
+				}
+				if called && !failed {
+					keep = append(keep, p)
+				}
+			}
+			post = keep
+		}
 		if err == nil {
 			sawNull, sawVal := false, false
 			for _, p := range post {
@@ -709,7 +781,7 @@ func ruleC03AggSiblings(c *Ctx) {
 				}
 				fv, assumed := constant.Value(nil), false
 				for k, v := range p.Asg {
-					if kt := p.KeyTerm[k]; kt != nil && kt.V == ssa.Value(flag) {
+					if kt := p.KeyTerm[k]; kt != nil && isFlag(kt) {
 						fv, assumed = v, true
 					}
 				}
@@ -724,11 +796,11 @@ func ruleC03AggSiblings(c *Ctx) {
 				r := p.Ret[0].T
 				switch name {
 				case "sum", "min", "max":
-					if r == nil || r.V != ssa.Value(acc) {
+					if !isAcc(r) {
 						why = append(why, "the result is "+avString(p.Ret[0])+", not the accumulator")
 					}
 				case "avg":
-					okAvg := r != nil && r.Op == "bin" && r.Name == "/" && r.Args[0].V == ssa.Value(acc) && r.Args[1].Op == "conv" && r.Args[1].Args[0].Op == "call" && r.Args[1].Args[0].Name == "builtin:len"
+					okAvg := r != nil && r.Op == "bin" && r.Name == "/" && isAcc(r.Args[0]) && r.Args[1].Op == "conv" && r.Args[1].Args[0].Op == "call" && r.Args[1].Args[0].Name == "builtin:len"
 					if !okAvg {
 						why = append(why, "AVG returns "+avString(p.Ret[0])+", not accumulator / member count")
 					}
